@@ -19,7 +19,7 @@ RULE = (
     "replicated and per-chain initial states. non-trivial = >=2 chains, >=2 kernels and chunk < some "
     "duration; distinct by configuration hash"
 )
-REQUIRED = ["second_build_identical", "identical_runs_bitwise", "int_seed_equals_key", "all_keys_distinct",
+REQUIRED = ["per_chain_keys_equal_split", "second_build_identical", "identical_runs_bitwise", "int_seed_equals_key", "all_keys_distinct",
             "other_chains_unaffected", "first_sample_is_initial_value", "first_sample_is_jittered_value",
             "jitter_keys_distinct", "multi_chain_initial_values"]
 ANCHORS = ["goose/builder.py:EngineBuilder.build", "goose/builder.py:EngineBuilder.set_initial_values",
@@ -82,10 +82,12 @@ def init_state(rng=None, offset=0.0):
             "c": jnp.asarray([1.0, 2.0, 3.0], jnp.float32) * 0.1 + offset}
 
 
-def run_builder(cfg, seed, states=None, multi=False, jitter=None, show=False, second_build=False):
+def run_builder(cfg, seed, states=None, multi=False, jitter=None, show=False, second_build=False, engine_seed=None):
     import liesel.goose as gs
 
     b = gs.EngineBuilder(seed=seed, num_chains=cfg["chains"])
+    if engine_seed is not None:
+        b.set_engine_seed(engine_seed)
     b.show_progress = False
     b.store_kernel_states = True
     b.set_model(gs.DictInterface(log_prob))
@@ -129,6 +131,17 @@ def case_repro(case, res):
     same, _ = leaves_equal(r1["pos"], r4["pos"])
     if same:
         res.violation("seed-ignored", f"seeds {s} and {s + 1} give identical chains", case)
+    # engine seed given as int, as key, and as per-chain key array (the split the builder itself would make)
+    with liesel_call(res, "set_engine_seed variants", case):
+        k = jax.random.PRNGKey(s + 17)
+        e1 = simple_tree(run_builder(cfg, s, engine_seed=s + 17))
+        e2 = simple_tree(run_builder(cfg, s, engine_seed=k))
+        e3 = simple_tree(run_builder(cfg, s, engine_seed=jax.random.split(k, cfg["chains"])))
+        ok12, why12 = leaves_equal(e1, e2)
+        ok23, why23 = leaves_equal(e2, e3)
+        res.check(ok12, "int_seed_equals_key", "int-seed-vs-key", f"set_engine_seed({s + 17}) and set_engine_seed(PRNGKey) differ: {why12}", case)
+        res.check(ok23, "per_chain_keys_equal_split", "per-chain-keys", "set_engine_seed(key) and set_engine_seed(split(key, chains)) "
+                  f"give different results: {why23}", case)
     # chains must differ from each other (they get different keys)
     a = np.asarray(r1["pos"]["a"])
     if cfg["chains"] >= 2 and a.shape[1] > 3:
